@@ -79,6 +79,12 @@ func (s *SourceSplitter) Start(ckpt *snapshotpb.SourceCheckpoint) error {
 	restoredShards := make([]SourceSplitterShard, len(splitterState.AssignedShards))
 	for i, shard := range splitterState.GetAssignedShards() {
 		restoredShards[i] = newSourceSplitterShardFromProto(shard)
+
+		// A shard that no reader had picked up when the checkpoint was taken
+		// has no split state and keeps the cursor it was restored with.
+		if shard.Cursor != "" {
+			s.cursors[shard.ShardId] = shard.Cursor
+		}
 	}
 	s.splitTracker.LoadSplits(restoredShards, splitterState.LastAssignedShardId)
 
@@ -156,6 +162,11 @@ func (s *SourceSplitter) Checkpoint() []byte {
 	pbShards := make([]*kinesispb.SourceSplitterShard, len(splits))
 	for i, shard := range splits {
 		pbShards[i] = shard.toProto()
+
+		// The restored cursor is only superseded once a reader has the shard
+		// and reports it in its split states. A checkpoint can complete
+		// before the assignment reaches the reader.
+		pbShards[i].Cursor = s.cursors[shard.ShardID]
 	}
 
 	bs, err := proto.Marshal(&kinesispb.SplitterState{
